@@ -16,9 +16,21 @@ pub fn eval(sc: &Scenario) -> CaseResult {
     r
 }
 
+pub fn eval_drops(sc: &Scenario) -> CaseResult {
+    let (out, mut r) = eval_core(sc, PROPS, false);
+    if r.violation.is_none() {
+        // the statuses a spectator session hands out are input statuses too
+        r.violation = super::posthoc::spectator_replay(sc, &out).map(|(s, m)| (format!("C03.spectator|{s}"), m));
+    }
+    r.nontrivial = out.peers.iter().any(|p| p.alive && p.cs.iter().any(|c| c.0));
+    r
+}
+
 pub fn run(ctx: &Ctx) -> PropReport {
     let mut rep = PropReport::new("C03", "exploration");
     let mut p = GenParams::default();
+    // tick rates other than the default 60 fps (the builder's with_fps follows the game's tick rate)
+    p.fps = vec![60, 60, 60, 30, 120, 144];
     p.ticks = ctx.tier.pick((250, 1200), (2000, 5000));
     let rule = "C01's scenario space, both predictors; for every AdvanceFrame request (first simulations and resimulations) and every player: local => Confirmed and true value; Confirmed => frame <= newest received (session accessor AND network ledger) and true value; Predicted => frame > newest received, player connected, value == predictor(newest received true input) or default if none; Disconnected => player disconnected before that frame and default value; frames at or below confirmed_frame() keep their values in later resimulations; confirmed_frame() monotone; non-trivial = >=1 predicted input later corrected AND >=1 prediction reused for >=2 consecutive frames";
     rep.parts.push(run_random(ctx, "p2p", rule, || scenario(&p), ctx.tier.pick(6000, 24000), eval));
@@ -27,19 +39,29 @@ pub fn run(ctx: &Ctx) -> PropReport {
     let seed = ctx.seed;
     let n = ctx.tier.pick(3000u64, 20000u64);
     rep.part(|| run_enum(ctx, "drops",
-        "C07's two-peer drop scenarios (seeded sample of moment of death x lost tail, and explicit disconnect_player while the remote is ahead; rollback and lockstep): every request's statuses must satisfy the same clauses - Disconnected only for frames after the player's last received frame, with the default value; frames up to it Confirmed with the real input",
+        "C07's two-peer drop scenarios (seeded sample of moment of death x lost tail, and explicit disconnect_player while the remote is ahead; rollback and lockstep): every request's statuses must satisfy the same clauses - Disconnected only for frames after the player's last received frame, with the default value; frames up to it Confirmed with the real input; the survivor's spectator hands out the same values and statuses (also when packets sent before the drop reach it after the one announcing the drop)",
         n, move |i| {
-            if i % 3 == 0 {
-                super::c07::api_case(i / 3, seed)
-            } else {
-                super::c07::death_case((i * 7919) % (super::c07::NBASE * 120), seed, 1, &[0, 2])
-            }
+            // C06's variant of the same cases: always a spectator on the survivor, partly with reordering
+            // around the drop and a lagging spectator
+            super::c06::host_drop_case(i, seed)
         },
+        eval_drops, false));
+    let mut pw = p.clone();
+    pw.windows = vec![(1, 0)];
+    pw.ticks = ctx.tier.pick((250, 800), (1500, 4000));
+    rep.part(|| run_random(ctx, "lockstep",
+        "prediction window 0 (lockstep), partly through advance_frame_with_wait* with inputs arriving during the wait: the same clauses - in particular every input is Confirmed (or Disconnected), was really received, and carries the true value; non-trivial = >=1 stalled call and > 20 frames",
+        || super::c02::lockstep_wait(&pw), ctx.tier.pick(2000, 8000),
         |sc| {
             let (out, mut r) = eval_core(sc, PROPS, false);
-            r.nontrivial = out.peers.iter().any(|p| p.alive && p.cs.iter().any(|c| c.0));
+            let ls: u64 = out.peers.iter().map(|p| p.lockstep_stalls).sum();
+            let adv: u64 = out.peers.iter().map(|p| p.stats.first_sims).sum();
+            r.nontrivial = ls > 0 && adv > 20;
+            if out.peers.iter().any(|p| p.midwait_deliveries > 0) {
+                r.classes.push("midwait_delivery");
+            }
             r
-        }, false));
+        }));
     rep.floors.push(("p2p".into(), 0.3));
     rep.assumptions = vec!["connection status (disconnected flag, last received frame) is read through the verif-hooks accessor right after each call; cross-checked against the network ledger".into()];
     rep
